@@ -146,6 +146,31 @@ def framing(ctx, P):
         ctx.check(P + ':S16-2:escape-char', 'R-table', 'the escaped character is \'-\'', dash, function=b.path)
 
 
+class _Blk:
+    def __init__(self, blocks):
+        self.blocks = blocks
+        self.r = {}
+
+
+def core_like(b, i):
+    """A one-block view (block i with the single-definition temporaries feeding its call) for literal extraction."""
+    from rules.common import single_defs
+    defs = single_defs(b)
+    t = b.blocks[i]['t']
+    stmts = []
+    for a in t.get('args', []):
+        o = a
+        for _ in range(5):
+            if isinstance(o, dict) and 'l' in o and o['l'] in defs and defs[o['l']][1].get('k') != 'call':
+                st = defs[o['l']][1]
+                stmts.append(st)
+                ops = st['r'].get('o') or ([st['r']['p']] if 'p' in st['r'] else [])
+                o = ops[0] if ops else None
+            else:
+                break
+    return _Blk([dict(s=stmts, t=t, c=False)])
+
+
 def parse(ctx, P):
     b = ctx.body(CT + 'CleartextSignedMessage::from_armor_after_header')
     if b is not None:
@@ -171,6 +196,40 @@ def parse(ctx, P):
         # the only removal is the single line break before the boundary: truncate by 1 or 2, chosen by ends_with("\r\n")
         tr = b.calls(r'String::truncate$')
         ctx.check(P + ':S16-3:one-line-break-removed', 'R-table', 'exactly two truncate sites (CRLF / LF line break before the signature boundary)', len(tr) == 2, function=b.path)
+    wb0 = ctx.body(CT + 'CleartextSignedMessage::to_armored_writer')
+    hp = ctx.body('armor::reader::hash_header_line')
+    if wb0 is not None and hp is not None:
+        # Hash headers: the reader accepts `Hash: ` followed by names separated by a bare `,`.  The writer emits one `Hash: ` line per
+        # algorithm (the literal is written inside the loop over the hashes) and joins nothing with another separator.
+        def lits(bb):
+            out = []
+            def walk(x):
+                if isinstance(x, dict):
+                    if isinstance(x.get('k'), dict) and 's' in x['k']:
+                        out.append(x['k']['s'])
+                    for v in x.values():
+                        walk(v)
+                elif isinstance(x, list):
+                    for v in x:
+                        walk(v)
+            walk(bb.blocks)
+            walk(bb.r.get('promoted') or [])
+            return out
+        wl = lits(wb0)
+        rl = lits(hp)
+        import callgraph
+        edges = {i: set(j for j, _ in wb0.succ(i)) for i in range(len(wb0.blocks)) if not wb0.blocks[i]['c']}
+        inloop = set()
+        for c in callgraph.sccs(edges):
+            if len(c) > 1 or c[0] in edges.get(c[0], ()):
+                inloop |= set(c)
+        from rules.common import single_defs
+        hw = [i for i, t in wb0.calls(r'Write::write_all$') if any(x == 'b"Hash: "' for x in lits(core_like(wb0, i)))]
+        seps = [x for x in wl if x.strip('b"').startswith(',')]
+        ctx.check(P + ':S16-3:hash-header-format', 'R-table', 'the writer emits `Hash: <name>` once per algorithm inside its loop and uses no list separator the reader would not accept (reader: `Hash: ` and bare `,`)',
+                  bool(hw) and all(i in inloop for i in hw) and not seps and 'b"Hash: "' in wl and any(x in ('"Hash: "', 'b"Hash: "') for x in rl) and any(x.strip('b"') == ',' for x in rl),
+                  function=wb0.path, table=dict(writer=[x for x in wl if 'Hash' in x or ',' in x], reader=[x for x in rl if 'Hash' in x or ',' in x]),
+                  missing=('separator literal %s in the writer' % seps) if seps else None)
     hb = ctx.body(CT + 'has_rest')
     if hb is not None:
         # the trailing-data scan judges only the octets the read returned: the slice it iterates over is cut at the read count,
